@@ -81,6 +81,9 @@ pub struct StoreState {
     /// park (never return) at this mutating call after applying `prefix` of its writes
     pub park_at: Option<(u64, u32)>,
     pub reads: u64,
+    /// document reads (get / multi_get), counted from 1; the listed ones fail
+    pub doc_reads: u64,
+    pub read_faults: std::collections::BTreeSet<u64>,
 }
 
 /// Ordered-map storage behind the real `Storage` trait.
@@ -319,6 +322,11 @@ impl Storage for SimStorage {
     async fn get(&self, keyspace: &str, doc_id: Key) -> Result<Option<Document>, Self::Error> {
         let mut st = self.st.lock();
         st.reads += 1;
+        st.doc_reads += 1;
+        if st.read_faults.contains(&st.doc_reads) {
+            st.faults_fired += 1;
+            return Err(SimError(format!("injected storage failure at document read {}", st.doc_reads)));
+        }
         Ok(st
             .rows
             .get(keyspace)
@@ -329,6 +337,11 @@ impl Storage for SimStorage {
     async fn multi_get(&self, keyspace: &str, doc_ids: impl Iterator<Item = Key> + Send) -> Result<Self::DocsIter, Self::Error> {
         let mut st = self.st.lock();
         st.reads += 1;
+        st.doc_reads += 1;
+        if st.read_faults.contains(&st.doc_reads) {
+            st.faults_fired += 1;
+            return Err(SimError(format!("injected storage failure at document read {}", st.doc_reads)));
+        }
         let mut out = Vec::new();
         if let Some(m) = st.rows.get(keyspace) {
             for id in doc_ids {
